@@ -9,42 +9,47 @@ import HeimdallModel.Gen.Signer
 
 Model: `Model/Signer.lean` (key store, `load`, `Sign`, publication; cryptography and X.509 opaque),
 `Model/SignerConc.lean` (token creation, key-set reads and reloads as a small-step machine, any number of threads).
-Specification: `Spec/Signer.lean`.  The first group of theorems ties both to the current source: they are stated about
-`Gen/Signer.lean`, which `/verif/extract/signer` regenerates from `jwt_signer.go` and `entry.go` on every run.
+Specification: `Spec/Signer.lean`.  The first group of theorems ties the machine to the current source: they are stated about
+`Gen/Signer.lean`, which `/verif/extract/signer` regenerates from `jwt_signer.go` on every run.
 -/
 namespace Heimdall.Props.C16
 open Heimdall Heimdall.Signer Heimdall.SignerConc Heimdall.SignerProtocol
 
-/-! ## The tie: the source is what the model says -/
+/-! ## The tie: the source runs the locking protocol the machine runs
 
-/-- `jwtSigner` has one mutex, exactly the six methods the protocols below are stated for, none of its fields is
-assigned outside them, and every synchronisation-relevant event of every method is a known one (in particular no
-method writes a configuration field and only `load` writes a guarded one) -/
+Only the synchronisation protocol is read from the source (`Gen/Signer.lean`, regenerated on every run; calls of other
+methods of the signer inlined).  It is compared as a list of critical sections — which guarded fields are accessed
+inside which read- or write-lock section — so that behaviour-preserving rewrites (helpers, constants, explicit versus
+deferred unlock, order inside a section) leave the obligations alone.  Claim set, headers, key selection, algorithm
+tables and the public JWKs are observed from the running code by the correspondence check. -/
+
+/-- `jwtSigner` has one mutex, no function outside its methods assigns a field, and every method — entry point or
+helper — is well-formed: no guarded field is touched outside a critical section, no write in a read section, lock and
+unlock pair up, no configuration field is written, and a section that writes replaces all three guarded fields -/
 theorem c16_src_methods :
-    Gen.Signer.mutexes = ["mut"] ∧ Gen.Signer.protocol.map (·.1) = methodNames ∧
-    Gen.Signer.outsideWrites = [] ∧ allRecognised Gen.Signer.protocol = true := by decide
+    Gen.Signer.mutexes = ["mut"] ∧ Gen.Signer.outsideWrites = [] ∧ allMethodsSafe Gen.Signer.protocol = true := by
+  decide
 
-/-- `Sign` copies JWK and key inside one read-lock section and touches no guarded field afterwards -/
-theorem c16_src_sign_protocol : canon (lookupMethod Gen.Signer.protocol "Sign") = signProtocol := by decide
+/-- `Sign` copies JWK and key inside one read-lock section and touches no guarded field outside it -/
+theorem c16_src_sign_protocol : methodSections Gen.Signer.protocol "Sign" = some signSections := by decide
 
-theorem c16_src_keys_protocol : canon (lookupMethod Gen.Signer.protocol "Keys") = keysProtocol := by decide
+theorem c16_src_keys_protocol : methodSections Gen.Signer.protocol "Keys" = some keysSections := by decide
 
-theorem c16_src_hash_protocol : canon (lookupMethod Gen.Signer.protocol "Hash") = hashProtocol := by decide
+theorem c16_src_hash_protocol : methodSections Gen.Signer.protocol "Hash" = some jwkSections := by decide
 
 theorem c16_src_cert_protocol :
-    canon (lookupMethod Gen.Signer.protocol "activeCertificateChain") = certProtocol := by decide
+    methodSections Gen.Signer.protocol "activeCertificateChain" = some jwkSections := by decide
 
-/-- `load` parses outside the lock and swaps JWK, key and published list — all taken from the one selected entry and
-the one parsed store — inside one write-lock section -/
-theorem c16_src_load_protocol : canon (lookupMethod Gen.Signer.protocol "load") = loadProtocol := by decide
+/-- `load` does everything that can fail outside the lock and replaces JWK, key and published list inside one
+write-lock section; `OnChanged` does nothing else with the guarded fields -/
+theorem c16_src_load_protocol :
+    methodSections Gen.Signer.protocol "load" = some loadSections ∧
+    methodSections Gen.Signer.protocol "OnChanged" = some loadSections := by decide
 
-theorem c16_src_onchanged_protocol :
-    canon (lookupMethod Gen.Signer.protocol "OnChanged") = onChangedProtocol := by decide
-
-/-- the transitions of the machine, read as source-level events, are these protocols -/
+/-- the transitions of the machine, read as source-level events, are these critical sections -/
 theorem c16_src_edges_are_protocol :
-    signerEdgesAsProtocol = signProtocol ∧ readerEdgesAsProtocol = keysProtocol ∧
-    loaderEdgesAsProtocol = loadProtocol := by decide
+    sections (signerEdges.map (·.2.1)) = some signSections ∧ sections (readerEdges.map (·.2.1)) = some keysSections ∧
+    sections (loaderEdges.map (·.2.1)) = some loadSections := by decide
 
 /-- every step of the machine moves the stepping thread along one of these edges (performing the event the edge is
 labelled with) and leaves every other thread where it is -/
@@ -52,31 +57,14 @@ theorem c16_src_step_follows_edges {S : Type} (c c' : Config S) (h : Step c c') 
     (c'.threads i).where_ = (c.threads i).where_ ∨ edge (c.threads i).where_ (c'.threads i).where_ :=
   step_follows_edges c c' h i
 
-/-- the statements of `Sign` that touch the serialised claims are: create the empty map, run `signProgram`, hand the
-map to the JWT builder; `sub` is the first parameter -/
-theorem c16_src_claim_program :
-    Gen.Signer.claimOps.map abstractClaimOp = expectedClaimOps ∧ Gen.Signer.signParams = expectedSignParams ∧
-    Gen.Signer.signReceiver = "s" := by decide
-
-/-- the JOSE signer is built from the copies taken under the lock: algorithm and `kid`/`alg` headers from the JWK
-copy, the signing key from the key copy -/
-theorem c16_src_signer_setup :
-    Gen.Signer.signerSetup = expectedSignerSetup ∧ copiesOf Gen.Signer.signAssignments = expectedCopies := by decide
-
-/-- `load` selects the entry with `keystore.SelectKey`, checks JOSE support of every entry and the signing usage of the
-selected entry's certificate, publishes `JWK()` of every entry of the same store, and writes JWK and private key of
-the selected entry -/
-theorem c16_src_selection : selectionOf Gen.Signer.loadAssignments = expectedSelection := by decide
-
-/-- `keystore.SelectKey` is the model's `selectEntry` (an error, not an index panic, for a store without entries) and
-`Entry.CheckJOSESupport` accepts exactly the key sizes of the algorithm tables -/
-theorem c16_src_select_key_and_support :
-    Gen.Signer.selectKey = expectedSelectKey ∧ Gen.Signer.joseSupport = expectedJoseSupport := by decide
-
-/-- `Entry.JWK` fills `Key` with `PrivateKey.Public()`; the size tables are the model's -/
-theorem c16_src_jwk_public_half :
-    Gen.Signer.jwkLiteral = expectedJwkLiteral ∧ Gen.Signer.joseAlgorithm = expectedJoseAlgorithm ∧
-    Gen.Signer.rsaAlgorithms = rsaTable ∧ Gen.Signer.ecdsaAlgorithms = ecdsaTable := by decide
+/-- what the section reading rejects: the two ways of tearing the pair that were tried as mutations — `Sign` reading
+JWK and key under two read locks, `load` publishing the key list and the signing key under two write locks — and an
+access outside any section -/
+theorem c16_src_torn_protocols_rejected :
+    sections [.rlock, .readJwk, .runlock, .rlock, .readKey, .runlock, .ret] ≠ some signSections ∧
+    allMethodsSafe [("load", ["lock mut", "write pubKeys", "unlock mut", "lock mut", "write jwk", "write key",
+      "unlock mut", "return nil"])] = false ∧
+    sections [.readJwk, .rlock, .readKey, .runlock] = none := by decide
 
 /-! ## System claims -/
 
